@@ -451,7 +451,7 @@ class SolveUnc(_BaseODE):
         if self.ksize:
             if self.unc and self.systype is float:
                 self._inv_m()
-                self.pc = get_su_coef(self.m, self.b, self.k, h, self.rb)
+                self.pc = get_su_coef(self.m, self.b, self.k, h, self._rb)
                 if self.cdforces and self.pc:
                     # add ``alpha = bo (I + Bp bo)^-1`` to pc:
                     Bp = self.pc.Bp[:, None]
